@@ -445,6 +445,11 @@ EXTRA_TEXT = {
  'C17': ' The C11 codec contracts (UI/SNL encode and decode at any offset) are obligations here too.',
 }
 EXTRA_NOTE = {
+ 'C04': 'NOT decided: exactly-once delivery under fault scripts, Initiator-side reassembly (its send loop interleaves '
+        'timeout extensions), the composition of two real endpoints (each is verified against an assumed contract of the '
+        'step below it), termination of the Target recovery loop, clock progress of the deadline loop (assumed). A '
+        'conforming peer is assumed to put no information field into an ACK. With C19 (miu + header <= LR) the call-site '
+        'precondition gives "no frame exceeds the announced payload size".',
  'C13': 'Assumed: the payload length a chip returns in a well-framed response with the matching response code (status '
         'words, one octet per register); the PN532/PN533 register-level Type 1 Tag emulation (string based bit reversal) '
         'and the CRC check are assumed total. Not covered: arygon (thin subclass), the sense/listen paths, the '
